@@ -113,6 +113,31 @@ def find_impl_block(src, impl_header_re):
     return b + 1, e - 1
 
 
+def find_impl_blocks(src, impl_header_re):
+    """All impl blocks whose header matches: list of (start, end) of the body."""
+    res = []
+    for m in re.finditer(impl_header_re, src, re.M):
+        b = src.index("{", m.end() - 1)
+        e = match_brace(src, b)
+        res.append((b + 1, e - 1))
+    if not res:
+        raise AnchorLost(f"impl header {impl_header_re!r} not found")
+    return res
+
+
+def find_fn_in_impls(src, name, impl_header_re):
+    hits = []
+    for (a, b) in find_impl_blocks(src, impl_header_re):
+        try:
+            hits.append(find_fn(src, name, a, b))
+        except AnchorLost as ex:
+            if "0 definitions" not in str(ex):
+                raise
+    if len(hits) != 1:
+        raise AnchorLost(f"fn {name}: {len(hits)} definitions in impl blocks {impl_header_re!r}")
+    return hits[0]
+
+
 def find_fn(src, name, start=0, end=None):
     """Find `fn name` (item) within src[start:end]. Returns dict with
     item_start (incl. attributes/docs/visibility), sig_start, body_start ('{'), body_end (past '}')."""
